@@ -33,6 +33,7 @@ from . import common as C
 from . import geomgen as G
 from . import c06_util as U
 from . import c06 as C06
+from . import c09_float as F
 
 ANCHOR_FILES = ['spatialpandas/dask.py', 'spatialpandas/geometry/base.py',
                 'spatialpandas/geoseries.py']
@@ -76,6 +77,27 @@ def gen_specs(rep, tier):
     same = [[3, 3]] * 4
     spec('point', same, 'line', [[0, 0, 1, 1]] * 4, 'g', [0, 2, 4], [1, 3], [15])
     spec('line', [None] * 3, 'point', [[1, 1], [2, 2], None], 'g', [0, 1, 3], [1, 2], [5])
+    # 0a. the classes on which Dask's set_index cannot deliver the requested partitions (the branch
+    #     `if ddf.npartitions != npartitions: repartition` of pack_partitions is for them): all rows
+    #     at one key (identical points with float coordinates, only missing rows) with 1, 2, 3
+    #     partitions requested from 1 and 3 input partitions; p = 1 (at most four keys) with 2, 3, 8
+    #     and the default; frames of 1, 2, 3 rows with 2, 8 and the default.  Expectation = the
+    #     property's: rows, keys, order (fewer real partitions than requested = the known class
+    #     'partition-count'; a raise = nothing claimed); npartitions as a numpy integer
+    pt = [12.3456789, -45.678901]
+    for cuts in ([0, 6], [0, 2, 4, 6]):
+        spec('point', [pt] * 6, 'line', [[0.1, 0.2, 0.3, 0.4]] * 6, 'g', cuts, [1, 2, 3], [15])
+        specs[-1]['float'] = True
+    div = [[0.1, 0.1], [0.9, 0.9], [0.1, 0.9], [0.9, 0.1], [0.45, 0.45], [0.3, 0.7]]
+    for cuts in ([0, 6], [0, 2, 4, 6]):
+        spec('point', div, 'line', [[0.1, 0.2, 0.3, 0.4]] * 6, 'g', cuts, [1, 2, 3, 8, None], [1])
+        specs[-1]['float'] = True
+    for r in (1, 2, 3):
+        spec('point', [[0.1 * (i + 1), 0.7 - 0.3 * i * i] for i in range(r)], 'line',
+             [[0.1, 0.2, 0.3, 0.4]] * r, 'g', [0, r], [None, 8, 2], [15])
+        specs[-1]['float'] = True
+    spec('point', div, 'line', [[0.1, 0.2, 0.3, 0.4]] * 6, 'g', [0, 3, 6], ['np2', 'np3'], [15])
+    specs[-1]['float'] = True
     # 0b. every p of the property's range on frames covering all four quadrants of the extent
     #     (distances in the second half of the curve, >= 2^(2p-1), occur)
     quad = [[0, 0], [8, 8], [0, 8], [8, 0], [6, 6], [2, 6], [6, 2], None, [1, 1], [7, 1]]
@@ -94,12 +116,20 @@ def gen_specs(rep, tier):
                  [0, 0, 0] + list(range(1, 17)) + [20, 24, 24]):
         spec('point', els24, k24, els24h, 'g', cuts, [None], [15])
     # A. one frame, every input partitioning, a few (npartitions, p)
+    #    (the second frame of the quick tier has float coordinates: a decimal grid whose cell edges
+    #    are near-ties for every p >= 5; its keys are decided by the binary64 model in the kernel)
     for kind in (['point', 'polygon'] if quick else G.KINDS):
-        els = C06.template(kind, 0)
-        k2, els2 = C06.second_column(kind)
-        for cuts in U.compositions(6) + [[0, 0, 2, 2, 6], [0, 6, 6]]:
+        floaty = kind != 'point'
+        if floaty:
+            fs = F.float_frame_spec(rng, kind, 'grid', 5, n=6)
+            els, k2, els2 = fs['els_g'], fs['kind_h'], fs['els_h']
+        else:
+            els = C06.template(kind, 0)
+            k2, els2 = C06.second_column(kind)
+        for cuts in U.compositions(len(els)) + [[0, 0, 2, 2, len(els)], [0, len(els), len(els)]]:
             nps = [rng.randint(1, 8)] if quick else [1, 2, 3, 5, 8]
             spec(kind, els, k2, els2, 'g', cuts, nps, [rng.choice(PS)] if quick else PS)
+            specs[-1]['float'] = floaty
     # B. every kind x npartitions 1..8 x p, a few partitionings; both active columns
     for kind in G.KINDS:
         for t in ((0, 1) if quick else (0, 1, 2)):
@@ -163,11 +193,20 @@ def gen_specs(rep, tier):
     # C. random frames
     for _ in range(25 if quick else 800):
         kind = rng.choice(G.KINDS)
-        els, k2, els2 = C06.random_frame(rng, kind)
+        floaty = rng.random() < 0.4
+        pp = rng.randint(1, 20) if floaty else rng.choice(PS)
+        if floaty:
+            fs = F.float_frame_spec(rng, kind, rng.choice(F.FLAVOURS), pp, n=rng.randint(3, 9))
+            els, k2, els2 = fs['els_g'], fs['kind_h'], fs['els_h']
+        else:
+            els, k2, els2 = C06.random_frame(rng, kind)
         n = len(els)
         spec(kind, els, k2, els2, rng.choice(['g', 'g', 'h']), C06.random_cuts(rng, n),
-             [rng.randint(1, 8)], [rng.choice(PS)], presort=rng.random() < 0.2,
+             [rng.randint(1, 8)], [pp], presort=rng.random() < 0.2,
              repack=(rng.randint(1, 4), rng.choice(PS)) if rng.random() < 0.2 else None)
+        specs[-1]['float'] = floaty
+    # F. frames with float coordinates of every flavour, and their provenances (c09_float.py)
+    specs += F.gen_float_specs(rep, tier)
     return specs
 
 
@@ -181,7 +220,10 @@ def keys_of(df, p):
 def check_packing(ctx, spec, df, X, npart, p, tag, baseline):
     rep = ctx['rep']
     info = {'spec': spec, 'npartitions': npart, 'p': p, 'stage': tag}
-    req = 8 if npart is None else npart
+    if isinstance(npart, str):          # 'np3': the count as a numpy integer
+        npart = np.int64(int(npart[2:]))
+        rep.count('npartitions-numpy-integer')
+    req = 8 if npart is None else int(npart)
     try:
         P = X.pack_partitions(npartitions=npart, p=p)
         parts = U.compute_parts(P)
@@ -253,6 +295,23 @@ def check_packing(ctx, spec, df, X, npart, p, tag, baseline):
                       f'pack_partitions(npartitions={npart}, p={p}): the packed rows are not the '
                       f'input rows: {len(a)} rows out, {len(b)} in', info)
         return None
+    # binary64 model: input partitions
+    if ctx.get('in_parts_of') is not X:
+        ctx['in_parts_of'], ctx['in_parts'] = X, U.compute_parts(X)
+    in_parts = ctx['in_parts']
+    rows = np.asarray(df.geometry.bounds.values, dtype='float64')
+    if len(in_parts) != X.npartitions:
+        rep.count('input-npartitions-attribute-differs')
+    # (a) binary64: the kernel computes every key from the bounds rows of the input partitions
+    #     (Model/PackFloat.v) and compares them with the index of the packed frame
+    fb = {int(v): [float(x) for x in r] for v, r in zip(df['v'].tolist(), rows)}
+    if all(int(i) >= 0 for q in parts for i in q.index.tolist()):   # (negative: 'key-out-of-range' below)
+        ctx['fcases'].append(F.float_case(
+            [[(int(v), fb[int(v)]) for v in q['v'].tolist()] for q in in_parts],
+            [[(int(v), int(i)) for v, i in zip(q['v'].tolist(), q.index.tolist())] for q in parts], req, p))
+        ctx['fresults'].append((True, True, True, len(parts) == req))
+        ctx['fmetas'].append(info)
+        rep.count('float-model-case')
     # index = own key
     idx = [int(i) for i in out.index.tolist()]
     vs = [int(v) for v in out['v'].tolist()]
@@ -308,10 +367,12 @@ def check_packing(ctx, spec, df, X, npart, p, tag, baseline):
                           'npartitions) differ in their ordered keys or rows per key', info)
     else:
         baseline[p] = (idx, rows_by_key)
-    # model
-    in_parts = U.compute_parts(X)
-    br = {int(v): U.cbox(r) for v, r in
-          zip(df['v'].tolist(), np.asarray(df.geometry.bounds.values, dtype='float64'))}
+    # exact (option Z) model: global total bounds and the three contracts
+    if spec.get('float'):
+        rep.count('float-coordinates')
+        rep.count('float-flavour:' + str(spec.get('flavour', 'fixed')))
+        return P
+    br = {int(v): U.cbox(r) for v, r in zip(df['v'].tolist(), rows)}
     ctx['cases'].append(([[(C.Nat(int(v)), br[int(v)], coqN(key[int(v)])) for v in q['v'].tolist()]
                           for q in in_parts],
                          [[(C.Nat(int(v)), coqN(int(i))) for v, i in zip(q['v'].tolist(), q.index.tolist())]
@@ -353,6 +414,33 @@ def run_seq(ctx, spec, df, X):
                     ref = ref.set_geometry(U.active_name(X))
                     X.partition_sindex
                 rep.count('warm-cache:' + op[1])
+            elif op[0] == 'provenance':
+                # how the frame reaches pack_partitions; what these operations do themselves is the
+                # business of C10 / C11 / C20: when one raises, the frame stays what it was
+                try:
+                    if op[1] in ('to_parquet', 'to_parquet_sindex'):
+                        d = tempfile.mkdtemp(prefix='sp_c09_')
+                        tmpdirs.append(d)
+                        path = os.path.join(d, 'f.parq')
+                        X.to_parquet(path)
+                        X = read_parquet_dask(path)
+                        ref = ref.set_geometry(U.active_name(X))
+                        if op[1] == 'to_parquet_sindex':
+                            X.partition_sindex
+                    elif op[1] == 'pack_to_parquet':
+                        d = tempfile.mkdtemp(prefix='sp_c09_')
+                        tmpdirs.append(d)
+                        X = X.pack_partitions_to_parquet(os.path.join(d, 'p.parq'), npartitions=2, p=10)
+                        ref = ref.set_geometry(U.active_name(X))
+                    elif op[1] == 'persist':
+                        X.partition_sindex
+                        X = X.persist()
+                    elif op[1] == 'repartition':
+                        X.partition_sindex
+                        X = X.repartition(npartitions=X.npartitions + 1)
+                    rep.count('provenance:' + op[1])
+                except Exception as e:
+                    rep.count(f'provenance-raised:{op[1]}:{type(e).__name__}')
             elif op[0] == 'filter_isin':
                 X = X[X.v.isin(op[1])]
                 ref = ref[ref.v.isin(op[1])]
@@ -458,6 +546,33 @@ def flush(ctx):
                       f'perm, sorted, count) = {model}',
                       {**ctx['metas'][i], 'case': ctx['cases'][i], 'impl': ctx['results'][i],
                        'model': model})
+    bad = C.coq_mismatches(F.IMPORTS, F.FN, F.CASE_TY, F.RES_TY, ctx['fcases'], ctx['fresults'], shard=40)
+    seen = set()
+    for i in bad:
+        meta = ctx['fmetas'][i]
+        try:
+            verdict = C.coq_eval(F.IMPORTS, f"{F.FN} {C.coq(ctx['fcases'][i])}")
+        except Exception as e:
+            verdict = 'not evaluated: ' + repr(e)[:200]
+        flags = [w == 'true' for w in verdict.replace('(', ' ').replace(')', ' ').replace(',', ' ').split()]
+        if len(flags) == 4 and not flags[0]:
+            sig = 'model-raises-real-returns'
+        elif len(flags) == 4 and not flags[1]:
+            sig = 'index-differs-from-float-model'
+        else:
+            sig = 'float-model-differs'
+        if sig in seen:
+            continue
+        seen.add(sig)
+        in_rows = [[str(x) for x in q] for q in ctx['fcases'][i][0]]
+        rep.violation(sig,
+                      'the index of the packed frame is not the Hilbert distance of each row\'s bounds row '
+                      'against the total bounds of the whole frame as Model/PackFloat.v computes it on '
+                      'binary64 in the Coq kernel (returns, same (key,row) pairs, sorted, count) = '
+                      f'{verdict}; real output partitions (row id, index): '
+                      f"{[[str(x) for x in q] for q in ctx['fcases'][i][1]]}",
+                      {**meta, 'input_partitions (row id, bounds row)': in_rows, 'model_verdict': verdict})
+    rep.extra['float_model_cases'] = len(ctx['fcases'])
     rep.extra['model_cases'] = len(ctx['cases'])
     rep.extra['unclaimed_value_errors'] = len(ctx['unclaimed'])
 
@@ -473,7 +588,10 @@ def run(rep):
                 'pack again, vs a fresh frame of the same rows); one evaluation = one computed packing; '
                 'non-trivial = at least two distinct keys; distinct = distinct '
                 '(frame, partitioning, npartitions, p)')
-    ctx = {'rep': rep, 'cases': [], 'results': [], 'metas': [], 'unclaimed': []}
+    ctx = {'rep': rep, 'cases': [], 'results': [], 'metas': [], 'unclaimed': [],
+           'fcases': [], 'fresults': [], 'fmetas': []}
+    import time
+    t0 = time.time()
     numba.set_num_threads(1)
     with dask.config.set(scheduler='synchronous'):
         for spec in gen_specs(rep, tier):
@@ -483,19 +601,32 @@ def run(rep):
                 import traceback
                 rep.violation('harness-or-library-raises', f'{type(e).__name__}: {str(e)[:300]}',
                               {'spec': spec, 'trace': traceback.format_exc()[-1500:]})
+        t1 = time.time()
+        # large frames on both sides of the size thresholds, several numba threads
+        F.run_big(rep, F.gen_big_specs(rep, tier))
+    t2 = time.time()
     flush(ctx)
+    rep.extra['seconds (small frames, large frames + kernel, kernel on small frames)'] = \
+        [round(t1 - t0), round(t2 - t1), round(time.time() - t2)]
 
 
 def replay(rep, rp):
     import dask
     import numba
+    if 'big' in rp:
+        with dask.config.set(scheduler='synchronous'):
+            F.run_big(rep, [rp['big']])
+        for v in rep.violations:
+            print(v['signature'], '-', v['what'])
+        return not rep.violations
     spec = dict(rp['spec'])
     if 'npartitions' in rp and 'seq' not in spec:
         spec['nps'] = [rp['npartitions']] if rp.get('stage') != 'repack' else spec['nps'][:1]
         spec['ps'] = [rp['p']] if rp.get('stage') != 'repack' else spec['ps'][:1]
     spec.pop('repacked_after', None)
     spec.pop('seq_step', None)
-    ctx = {'rep': rep, 'cases': [], 'results': [], 'metas': [], 'unclaimed': []}
+    ctx = {'rep': rep, 'cases': [], 'results': [], 'metas': [], 'unclaimed': [],
+           'fcases': [], 'fresults': [], 'fmetas': []}
     numba.set_num_threads(1)
     with dask.config.set(scheduler='synchronous'):
         run_spec(ctx, spec)
